@@ -30,6 +30,17 @@ theorem foldlM_progress {σ : Type} (f : σ → Nat → Except Reject σ) (I : L
     simp only [List.foldlM_cons, hf]
     exact hfold
 
+theorem lastIdxWhere_isSome {p : ℝ → Bool} {l : List ℝ} (hl : 0 < l.length) (h0 : p (l.getD 0 0) = true) :
+    ∃ i, lastIdxWhere p l = some i := by
+  unfold lastIdxWhere
+  apply Option.isSome_iff_exists.1
+  apply List.getLast?_isSome.2
+  apply List.ne_nil_of_mem (a := 0)
+  rw [List.mem_filter]
+  refine ⟨by simpa using hl, ?_⟩
+  rw [List.getD_eq_getElem?_getD, List.getElem?_eq_getElem hl] at h0
+  simpa [List.getElem?_eq_getElem hl] using h0
+
 /-- The cut-off rule finds a position as soon as the whole eigenvalue sum exceeds the threshold. -/
 theorem rankCut_isSome (eig : List ℝ) (thresh : ℝ) (hne : eig ≠ []) (h : thresh < eig.sum) :
     ∃ r, Gen.rankCut realOps (Gen.eigsum eig) thresh = some r := by
@@ -38,17 +49,7 @@ theorem rankCut_isSome (eig : List ℝ) (thresh : ℝ) (hne : eig ≠ []) (h : t
   have h0 : Gen.cutCond realOps thresh ((revCumsum eig).getD 0 0) = true := by
     rw [revCumsum_getD eig 0 hl]
     simpa [Gen.cutCond, realOps] using h
-  unfold lastIdxWhere
-  have hmem : 0 ∈ (List.range (revCumsum eig).length).filter
-      (fun i => match (revCumsum eig)[i]? with | some x => Gen.cutCond realOps thresh x | none => false) := by
-    rw [List.mem_filter]
-    refine ⟨by simp [revCumsum_length, hl], ?_⟩
-    have hl' : 0 < (revCumsum eig).length := by rw [revCumsum_length]; exact hl
-    rw [List.getD_eq_getElem?_getD, List.getElem?_eq_getElem hl'] at h0
-    rw [List.getElem?_eq_getElem hl']
-    simpa using h0
-  have hne' := List.ne_nil_of_mem hmem
-  obtain ⟨i, hi⟩ := Option.isSome_iff_exists.1 (List.getLast?_isSome.2 hne')
+  obtain ⟨i, hi⟩ := lastIdxWhere_isSome (by rw [revCumsum_length]; exact hl) h0
   exact ⟨i + Gen.cutOffset, i, hi, rfl⟩
 
 theorem transpose_ncols (U : Mat ℝ) (h : 0 < U.ncols) : (Mat.transpose U).ncols = U.nrows := by
